@@ -978,6 +978,29 @@ func fixConds(v *V) {
 	}
 }
 
+// presentationOnly flips presentation options on some Stack nodes of v (kind, capacity, content untouched)
+func presentationOnly(r *rand.Rand, v *V) {
+	if v.T == 'K' && v.Cfg.Eqf == 0 {
+		switch r.Intn(6) {
+		case 0:
+			v.Cfg.Opt ^= fFold
+		case 1:
+			v.Cfg.Opt ^= fParen
+		case 2:
+			v.Cfg.Opt ^= fNoPad
+		case 3:
+			if v.Cfg.Kind != 4 {
+				v.Cfg.Sym = []string{"", "&", "sym"}[r.Intn(3)]
+			}
+		case 4:
+			v.Cfg.ID = []string{"", "x", "other"}[r.Intn(3)]
+		}
+	}
+	for i := range v.Xs {
+		presentationOnly(r, &v.Xs[i])
+	}
+}
+
 func genEqPair(r *rand.Rand, id, tier string) string {
 	var a V
 	if r.Intn(4) == 0 {
@@ -987,7 +1010,13 @@ func genEqPair(r *rand.Rand, id, tier string) string {
 	}
 	switch k := r.Intn(10); {
 	case k < 3:
-		return a.String() + " | " + cloneV(a).String() + " | copy"
+		b := cloneV(a)
+		if r.Intn(2) == 0 {
+			// the copy differs in presentation options only (case folding, parentheses, padding, symbol, ID):
+			// not part of the description, so still equal
+			presentationOnly(r, &b)
+		}
+		return a.String() + " | " + b.String() + " | copy"
 	case k == 3 && r.Intn(4) == 0 && a.T == 'K':
 		// the same *stack on both sides: the r == o short-cut of stack.isEqual
 		return a.String() + " | " + a.String() + " | self"
